@@ -218,6 +218,12 @@ def run_property(prop, tier, jobs, kinds, text, bounds, outside=(), extra_assump
                 if w: rep.violation("TransOffset:%s:%s" % (form, json.dumps(fobj["model"], sort_keys=True)[:200]), w + "  [%s]" % fobj["desc"], {"transoffset": fobj["model"], "form": form})
                 else: rep.spurious.append({"job": r["name"], "obligation": fobj["desc"], "model": fobj["model"]})
                 continue
+            if r["name"].startswith("glue-"):
+                from . import c18
+                w = c18.glue_panel()
+                if w: rep.violation("glue:" + w[:80], w + "  [%s: %s]" % (r["name"], fobj["desc"]), {"glue_panel": True})
+                else: rep.spurious.append({"job": r["name"], "obligation": fobj["desc"], "model": fobj["model"]})
+                continue
             if r["name"].startswith("convert:"):
                 w = tz_replay.check_convert_panel()
                 if w: rep.violation("convert:" + w[:80], w + "  [%s: %s]" % (r["name"], fobj["desc"]), {"convert_panel": True})
@@ -277,6 +283,9 @@ def run_property(prop, tier, jobs, kinds, text, bounds, outside=(), extra_assump
 
 def replay_case(case):
     if "transoffset" in case: return tz_replay.check_transoffset(case["transoffset"], case["form"])
+    if case.get("glue_panel"):
+        from . import c18
+        return c18.glue_panel()
     if case.get("convert_panel"): return tz_replay.check_convert_panel()
     if case.get("newyear_spill"): return tz_replay.check_newyear_spill()
     if case.get("footer_panel"): return tz_replay.check_footer_panel(case.get("base_year", 1990))
